@@ -292,8 +292,9 @@ def r04_4(prog, out):
                 if prog.body_of_type(ci.body, br.fut_ty) != bid or br.origin is None or br.origin.kind != "call":
                     continue
                 made_at = br.origin.data
-                loops_wait = set(ci.cfg.in_loop(x.poll_bb))
-                if takes_mut and loops_wait and loops_wait <= set(ci.cfg.in_loop(made_at)):
+                loops_made = set(ci.cfg.in_loop(made_at))
+                # built inside the actor loop (a fresh future per iteration) and awaited in the same iteration
+                if takes_mut and loops_made and loops_made <= set(ci.cfg.in_loop(x.poll_bb)) and ci.cfg.dominates(made_at, x.poll_bb):
                     exclusive_rearm = True
     if exclusive_rearm:
         out.holds(key + ":rearm-signal", bi.loc(a.poll_bb), "the poll future holds `&mut` on the tracker and is rebuilt in every iteration of the actor loop: the "
